@@ -17,7 +17,8 @@ EXPLANATION = (
     "(trusted lemma on np.any / comparison semantics); complex writes call the handler twice (outside the quantifier)."
     ' Added after the third round of seeded changes: on the resize route the exact re-scaled codes are handed to set_val without a cast of its own (C10.R1), and the numpy post-processor passes the result object itself on (C15.R5), so flags are neither hidden nor dropped on those routes.'
     " Added after the fourth round of seeded changes: no route stores codes without set_val's notifications (C02.R1); the int value type is promoted on every path that applies the scale/bias map, so mapped values are not truncated unflagged (C17.R8); C20.R8 objects carry only the documented attributes and no function writes module-level containers (no caches / memos that go stale)."
-    ' Added after the fifth round of seeded changes: R7 no library function calls reset() and Config.update has no early exit; the re-scaling routes hand exact codes to set_val (C10.R1/R2); C20.R8 also forbids mutable default arguments and private attributes hung on operands (x._cache, x.__dict__[...]).')
+    ' Added after the fifth round of seeded changes: R7 no library function calls reset() and Config.update has no early exit; the re-scaling routes hand exact codes to set_val (C10.R1/R2); C20.R8 also forbids mutable default arguments and private attributes hung on operands (x._cache, x.__dict__[...]).'
+    ' Added after the sixth round of seeded changes: the range tests may live in a helper of their own (also with *parts): the function that stores the flags is found by role (flag_writer), its tests may be any(np.any(p > max) for p in parts), and every value array handed to it must be a rounding result (C04.R1).')
 ASSUMPTIONS = [
     "np.any(a > b) is true iff some element of a exceeds b (NumPy semantics, lemma table)",
     "callbacks are invoked only through the runner method (checked: every call site passes a literal hook name)",
